@@ -128,6 +128,12 @@ var props = map[string]propCfg{
 		Quick:    tierCfg{16, 20},
 		Thorough: tierCfg{16, 600},
 	},
+	"C04": {
+		Harness:  "./harness/c04",
+		Specs:    tsSpecs(),
+		Quick:    tierCfg{16, 25},
+		Thorough: tierCfg{16, 600},
+	},
 	"C09": {
 		Harness:  "./harness/c09",
 		Specs:    []rewrite.PkgSpec{{Dir: repo("par"), Subst: substSync, GoStmts: true}},
